@@ -24,15 +24,27 @@ pub struct Mode {
     pub vec_len: usize,
 }
 
+/// one choice of the client, in the order the accounts value is written down
+#[derive(Clone, Debug)]
+pub enum Choice {
+    /// a key supplied at `path`
+    Key(String, [u8; 32]),
+    /// `None` at `path` (an absent `Option<_>`, or the default address of `Program` / `Sysvar`)
+    Absent(String),
+    /// `Some(_)` at `path`
+    Present(String),
+    /// a `Vec` / array of this many elements at `path`
+    Len(String, usize),
+}
+
 pub struct FillCx {
     pub mode: Mode,
     pub next: u32,
-    /// (path, supplied key or None when the client value was `None`)
-    pub supplied: Vec<(String, Option<[u8; 32]>)>,
+    pub choices: Vec<Choice>,
 }
 impl FillCx {
     pub fn new(mode: Mode) -> Self {
-        FillCx { mode, next: 1, supplied: vec![] }
+        FillCx { mode, next: 1, choices: vec![] }
     }
     pub fn key(&mut self) -> Pubkey {
         let mut k = [0xC1u8; 32];
@@ -57,7 +69,7 @@ pub trait Fill: Sized {
 impl Fill for Pubkey {
     fn fill(cx: &mut FillCx, path: &str) -> Self {
         let k = cx.key();
-        cx.supplied.push((path.to_string(), Some(k.to_bytes())));
+        cx.choices.push(Choice::Key(path.to_string(), k.to_bytes()));
         k
     }
 }
@@ -67,20 +79,23 @@ impl Fill for () {
 impl<T: Fill> Fill for Option<T> {
     fn fill(cx: &mut FillCx, path: &str) -> Self {
         if cx.mode.some {
+            cx.choices.push(Choice::Present(path.to_string()));
             Some(T::fill(cx, path))
         } else {
-            cx.supplied.push((path.to_string(), None));
+            cx.choices.push(Choice::Absent(path.to_string()));
             None
         }
     }
 }
 impl<T: Fill> Fill for Vec<T> {
     fn fill(cx: &mut FillCx, path: &str) -> Self {
+        cx.choices.push(Choice::Len(path.to_string(), cx.mode.vec_len));
         (0..cx.mode.vec_len).map(|i| T::fill(cx, &join(path, &i.to_string()))).collect()
     }
 }
 impl<T: Fill, const N: usize> Fill for [T; N] {
     fn fill(cx: &mut FillCx, path: &str) -> Self {
+        cx.choices.push(Choice::Len(path.to_string(), N));
         let mut i = 0usize;
         [(); N].map(|_| {
             let v = T::fill(cx, &join(path, &i.to_string()));
@@ -124,7 +139,12 @@ where
         A::extend_account_metas(program_id, &accounts, &mut metas);
         runs.push(json!({
             "some": mode.some, "vec_len": mode.vec_len,
-            "supplied": cx.supplied.iter().map(|(p, k)| json!([p, k.map(|k| hex(&k))])).collect::<Vec<_>>(),
+            "choices": cx.choices.iter().map(|c| match c {
+                Choice::Key(p, k) => json!(["K", p, hex(k)]),
+                Choice::Absent(p) => json!(["N", p]),
+                Choice::Present(p) => json!(["S", p]),
+                Choice::Len(p, n) => json!(["L", p, n]),
+            }).collect::<Vec<_>>(),
             "metas": metas.iter().map(|m| json!([hex(&m.pubkey.to_bytes()), m.is_signer, m.is_writable])).collect::<Vec<_>>(),
         }));
     }
@@ -216,3 +236,76 @@ pub trait FileItems<const K: usize> {
 // Fill impls for the account sets of the programs bound inside the framework crates (orphan rule: they must
 // live beside the trait)
 include!("/verif/work/c17/gen_ext_fill.rs");
+
+// ------------------------------------------------------------------------------------------------
+// small helpers shared with the other harnesses (copied: this crate must not link /verif/harness, which
+// depends on /repo by path, when the check runs against another working tree)
+use std::io::{BufRead, Write};
+use std::panic::{catch_unwind, AssertUnwindSafe};
+
+/// Run `f` catching panics; Err(()) = panicked.
+pub fn guarded<T>(f: impl FnOnce() -> T) -> Result<T, ()> {
+    catch_unwind(AssertUnwindSafe(f)).map_err(|_| ())
+}
+pub fn quiet_panics() {
+    std::panic::set_hook(Box::new(|_| {}));
+}
+/// cases: `<id> <int>...` per line
+pub fn read_cases(path: &str) -> Vec<(String, Vec<i128>)> {
+    let f = std::fs::File::open(path).expect("open case file");
+    let mut out = vec![];
+    for line in std::io::BufReader::new(f).lines() {
+        let line = line.unwrap();
+        let mut it = line.split_whitespace();
+        let Some(id) = it.next() else { continue };
+        let ints = it.map(|t| t.parse::<i128>().expect("int")).collect();
+        out.push((id.to_string(), ints));
+    }
+    out
+}
+pub struct Out {
+    w: std::io::BufWriter<std::io::Stdout>,
+}
+impl Out {
+    pub fn new() -> Self {
+        Out { w: std::io::BufWriter::new(std::io::stdout()) }
+    }
+    pub fn line(&mut self, id: &str, obs: &[i128]) {
+        write!(self.w, "{id}").unwrap();
+        for o in obs {
+            write!(self.w, " {o}").unwrap();
+        }
+        writeln!(self.w).unwrap();
+    }
+    pub fn flush(&mut self) {
+        self.w.flush().unwrap();
+    }
+}
+/// Cursor over a case's integers.
+pub struct Cur<'a> {
+    pub v: &'a [i128],
+    pub i: usize,
+}
+impl<'a> Cur<'a> {
+    pub fn new(v: &'a [i128]) -> Self {
+        Cur { v, i: 0 }
+    }
+    pub fn next(&mut self) -> Option<i128> {
+        let x = self.v.get(self.i).copied();
+        if x.is_some() {
+            self.i += 1;
+        }
+        x
+    }
+    pub fn take(&mut self, n: usize) -> Option<&'a [i128]> {
+        if self.i + n > self.v.len() {
+            return None;
+        }
+        let s = &self.v[self.i..self.i + n];
+        self.i += n;
+        Some(s)
+    }
+    pub fn done(&self) -> bool {
+        self.i >= self.v.len()
+    }
+}
